@@ -698,9 +698,20 @@ def classify_gate(C, b, f):
             eb = strip(X.operand(b, c.b))
             sa, sb = show(ea), show(eb)
             op = c.op if truth else {"Lt": "Ge", "Le": "Gt", "Gt": "Le", "Ge": "Lt", "Eq": "Ne", "Ne": "Eq"}[c.op]
-            if "cltv_expiry_relative" in sa and "cltv_expiry_delta" in sb and "routing_policy" in sb and op == "Lt":
+            def widened_field(e, fname, owner_part):
+                x = e
+                for _ in range(4):
+                    if x[0] == "cast" and x[1].startswith("IntToInt") and x[2] in lib.INT_RANGES and x[3] in lib.INT_RANGES and \
+                            lib.INT_RANGES[x[3]][0] <= lib.INT_RANGES[x[2]][0] and lib.INT_RANGES[x[2]][1] <= lib.INT_RANGES[x[3]][1]:
+                        x = x[4]
+                    elif x[0] == "call" and x[1] in ("std::convert::From::from", "std::convert::Into::into") and x[2]:
+                        x = x[2][0]
+                    else:
+                        break
+                return x[0] == "field" and x[1] == fname and owner_part in show(x)
+            if widened_field(ea, "cltv_expiry_relative", "Htlc") and widened_field(eb, "cltv_expiry_delta", "routing_policy") and op == "Lt":
                 return ("expiry", "cltv_expiry_relative < policy delta")
-            if "cltv_expiry_relative" in sb and "cltv_expiry_delta" in sa and "routing_policy" in sa and op == "Gt":
+            if widened_field(eb, "cltv_expiry_relative", "Htlc") and widened_field(ea, "cltv_expiry_delta", "routing_policy") and op == "Gt":
                 return ("expiry", "policy delta > cltv_expiry_relative")
             if "cltv_expiry_relative" in sa + sb:
                 return ("?", "relative expiry compared as %s %s %s" % (sa[:40], op, sb[:40]))
